@@ -223,4 +223,7 @@ func TestWorker(t *testing.T) {
 
 func init() {
 	register("C02", newC02)
+	register("C24", newC24)
+	register("C07", newC07)
+	register("C03", newC03)
 }
